@@ -144,3 +144,168 @@ example : passRoots ⟨[(0, [])], [(2, [])],
     [(0, [⟨"urn:a", [⟨true, "urn:b", some 2⟩]⟩, ⟨"urn:b", []⟩])]⟩ 0 = [] := by decide
 
 end Suds.Loader
+
+namespace Suds.Loader
+
+/-- A fetch that fails (transport error or ill-formed bytes) leaves the cache exactly as it was. -/
+theorem failed_fetch_caches_nothing (c : DocCache) (u : Nat) (src : Nat → Outcome)
+    (hm : cacheGet c u = none) (hf : ∀ d, src u ≠ .doc d) : openDoc c u src = (none, c) := by
+  unfold openDoc
+  rw [hm]
+  cases h : src u with
+  | unreachable => rfl
+  | illFormed => rfl
+  | doc d => exact absurd h (hf d)
+
+theorem cacheGet_mem {c : DocCache} {u d : Nat} (h : cacheGet c u = some d) : (u, d) ∈ c := by
+  unfold cacheGet at h
+  cases hf : c.find? (·.1 == u) with
+  | none => simp [hf] at h
+  | some e =>
+    simp [hf] at h
+    have := List.find?_some hf
+    have hm := List.mem_of_find?_eq_some hf
+    have he : e.1 = u := by simpa using this
+    cases e
+    simp at he h
+    subst he; subst h
+    exact hm
+
+theorem openDoc_faithful (c : DocCache) (u : Nat) (src : Nat → Outcome) (hc : Faithful c src) :
+    Faithful (openDoc c u src).2 src := by
+  unfold openDoc
+  cases hg : cacheGet c u with
+  | some d => exact hc
+  | none =>
+    cases hs : src u with
+    | unreachable => exact hc
+    | illFormed => exact hc
+    | doc d =>
+      intro u' d' hm
+      simp only [List.mem_append, List.mem_singleton] at hm
+      rcases hm with h | h
+      · exact hc u' d' h
+      · cases h; exact hs
+
+/-- with a faithful cache, what `open` delivers depends on the source alone -/
+theorem openDoc_fst (c : DocCache) (u : Nat) (src : Nat → Outcome) (hc : Faithful c src) :
+    (openDoc c u src).1 = (match src u with | .doc d => some d | _ => none) := by
+  unfold openDoc
+  cases hg : cacheGet c u with
+  | some d =>
+    have := hc u d (cacheGet_mem hg)
+    simp [this]
+  | none => cases hs : src u <;> simp
+
+theorem openAll_faithful (src : Nat → Outcome) : ∀ (us : List Nat) (c : DocCache), Faithful c src →
+    Faithful (openAll c src us).2 src := by
+  intro us
+  induction us with
+  | nil => intro c hc; exact hc
+  | cons u rest ih =>
+    intro c hc
+    have h1 := openDoc_faithful c u src hc
+    unfold openAll
+    cases ho : openDoc c u src with
+    | mk r c' =>
+      rw [ho] at h1
+      cases r with
+      | none => exact h1
+      | some d =>
+        have h2 := ih c' h1
+        simp only []
+        cases hr : openAll c' src rest with
+        | mk r2 c'' =>
+          rw [hr] at h2
+          cases r2 <;> exact h2
+
+theorem openAll_fst (src : Nat → Outcome) : ∀ (us : List Nat) (c1 c2 : DocCache), Faithful c1 src → Faithful c2 src →
+    (openAll c1 src us).1 = (openAll c2 src us).1 := by
+  intro us
+  induction us with
+  | nil => intro c1 c2 _ _; rfl
+  | cons u rest ih =>
+    intro c1 c2 h1 h2
+    have e1 := openDoc_fst c1 u src h1
+    have e2 := openDoc_fst c2 u src h2
+    have f1 := openDoc_faithful c1 u src h1
+    have f2 := openDoc_faithful c2 u src h2
+    unfold openAll
+    cases ho1 : openDoc c1 u src with
+    | mk r1 c1' =>
+      cases ho2 : openDoc c2 u src with
+      | mk r2 c2' =>
+        rw [ho1] at e1 f1
+        rw [ho2] at e2 f2
+        simp only [] at e1 e2
+        have er : r1 = r2 := by rw [e1, e2]
+        subst er
+        cases r1 with
+        | none => rfl
+        | some d =>
+          have := ih c1' c2' f1 f2
+          simp only []
+          cases hr1 : openAll c1' src rest with
+          | mk a1 b1 =>
+            cases hr2 : openAll c2' src rest with
+            | mk a2 b2 =>
+              rw [hr1, hr2] at this
+              simp only [] at this
+              subst this
+              cases a1 <;> rfl
+
+/-- **All or nothing, and a retry is as good as a first load.** Let a load fail part-way because
+some fetches fail (`srcF` answers like the healthy source `srcH` or fails). Whatever the cache
+held before (faithfully), afterwards it still holds only complete, correct documents, and a retry
+against the healthy source delivers exactly the documents a clean first load delivers. -/
+theorem failed_load_then_retry (srcF srcH : Nat → Outcome) (us : List Nat) (c : DocCache)
+    (hc : Faithful c srcH) (hw : ∀ u d, srcF u = .doc d → srcH u = .doc d) :
+    Faithful (openAll c srcF us).2 srcH ∧
+    (openAll (openAll c srcF us).2 srcH us).1 = (openAll [] srcH us).1 := by
+  have hcF : Faithful c srcF → Faithful (openAll c srcF us).2 srcF := openAll_faithful srcF us c
+  -- entries are faithful to the healthy source throughout: prove it directly
+  have key : ∀ (us : List Nat) (c : DocCache), Faithful c srcH → Faithful (openAll c srcF us).2 srcH := by
+    intro us
+    induction us with
+    | nil => intro c hc; exact hc
+    | cons u rest ih =>
+      intro c hc
+      unfold openAll
+      have hstep : Faithful (openDoc c u srcF).2 srcH := by
+        unfold openDoc
+        cases hg : cacheGet c u with
+        | some d => exact hc
+        | none =>
+          cases hs : srcF u with
+          | unreachable => exact hc
+          | illFormed => exact hc
+          | doc d =>
+            intro u' d' hm
+            simp only [List.mem_append, List.mem_singleton] at hm
+            rcases hm with h | h
+            · exact hc u' d' h
+            · cases h; exact hw u d hs
+      cases ho : openDoc c u srcF with
+      | mk r c' =>
+        rw [ho] at hstep
+        cases r with
+        | none => exact hstep
+        | some d =>
+          have h2 := ih c' hstep
+          simp only []
+          cases hr : openAll c' srcF rest with
+          | mk r2 c'' =>
+            rw [hr] at h2
+            cases r2 <;> exact h2
+  refine ⟨key us c hc, ?_⟩
+  exact openAll_fst srcH us _ [] (key us c hc) (fun _ _ h => by simp at h)
+
+/-- Non-vacuity: the second of three fetches fails; the cache keeps the first document only and the
+retry delivers all three. -/
+example :
+    let srcH : Nat → Outcome := fun u => .doc (u + 10)
+    let srcF : Nat → Outcome := fun u => if u = 2 then .illFormed else .doc (u + 10)
+    openAll [] srcF [1, 2, 3] = (none, [(1, 11)]) ∧
+    (openAll [(1, 11)] srcH [1, 2, 3]).1 = some [11, 12, 13] := by decide
+
+end Suds.Loader
